@@ -192,6 +192,11 @@ def MsgV.tagAt (m : MsgV) (i : Nat) : Res (Option Nat) := do
 
 /-! ### ParseValue / ParseList / ParseMessage (mutually recursive; `fuel` ≥ input length) -/
 
+/-- the final `b[len(b)-n:]` of ParseValue: a panic when the reported size exceeds the input -/
+def guardSize (len : Nat) : Res Nat → Res Nat
+  | .ok n => if n > len then .panic else .ok n
+  | e => e
+
 mutual
 /-- ParseValue: the size; (the returned value is `b[len(b)-n:]`). -/
 def parseValue (F : FloatOps) : Nat → Bytes → Res Nat
@@ -218,9 +223,7 @@ def parseValue (F : FloatOps) : Nat → Bytes → Res Nat
       else if t = tMessage ∨ t = tBigMessage then parseMessage F fuel b
       else if t = tStruct then (decodeStruct b).bind fun x => .ok x.2
       else .err .type 0
-    match r with
-    | .ok n => if n > b.length then .panic else .ok n
-    | e => e
+    guardSize b.length r
 
 /-- ParseList -/
 def parseList (F : FloatOps) : Nat → Bytes → Res Nat
